@@ -1,16 +1,20 @@
 package main
 
 import (
+	"bufio"
 	"bytes"
 	"context"
 	"encoding/hex"
 	"encoding/json"
 	"flag"
 	"fmt"
+	"io"
 	"math/rand"
+	"net"
 	"os"
 	"os/exec"
 	"path/filepath"
+	"strings"
 	"sync"
 	"time"
 
@@ -34,8 +38,11 @@ type tnCase struct {
 	D     int      `json:"d"`
 	NDest int      `json:"ndest"`
 	Rate  int      `json:"rate"` // --rate (throttled loop) when > 0
-	raw   []byte   // generated long input (expected from the Go reference)
-	name  string
+	// FailAfter >= 0: the (single, fake) destination accepts that many PUBs and refuses the next one; what it
+	// accepted must be exactly the first FailAfter records (ToNsq.tla: PublishErr, InOrderExact)
+	FailAfter *int   `json:"fail_after,omitempty"`
+	raw       []byte // generated long input (expected from the Go reference)
+	name      string
 }
 
 type tnJob struct {
@@ -68,6 +75,8 @@ type tnReport struct {
 	Samples      []map[string]interface{} `json:"samples"`
 	Inconclusive []string                 `json:"inconclusive"`
 	RefChecked   int                      `json:"reference_checked_against_tlc"`
+	FailingDest  int                      `json:"runs_with_failing_destination"`
+	ShapeNotes   []string                 `json:"shape_notes"`
 }
 
 // refRecords is the harness' own Records (used for generated inputs); it is compared with TLC's Records on
@@ -275,6 +284,10 @@ func runToNsqCase(bin string, idx int, c *tnCase, dests []*nsqd.NSQD, rep *tnRep
 		rep.RefChecked++
 		mu.Unlock()
 	}
+	if c.FailAfter != nil {
+		runToNsqFailing(bin, idx, c, name, input, expected, rep, mu, distinct)
+		return
+	}
 	topic := fmt.Sprintf("c20t%d", idx)
 	argv := []string{"-topic", topic}
 	if c.D != '\n' || idx%2 == 0 {
@@ -295,6 +308,7 @@ func runToNsqCase(bin string, idx int, c *tnCase, dests []*nsqd.NSQD, rep *tnRep
 	err := cmd.Run()
 	defer func() {
 		for i := 0; i < c.NDest; i++ {
+			waitNoClients(dests[i], topic, "c")
 			_ = dests[i].DeleteExistingTopic(topic)
 		}
 	}()
@@ -388,7 +402,7 @@ func runToNsqCase(bin string, idx int, c *tnCase, dests []*nsqd.NSQD, rep *tnRep
 	}
 	rep.MismatchN++
 	rep.ByClass[class]++
-	if len(rep.Mismatches) < 40 || class == "other" && len(rep.Mismatches) < 80 {
+	if rep.ByClass[class] <= 12 {
 		ih := hex.EncodeToString(input)
 		if len(ih) > 200 {
 			ih = fmt.Sprintf("%s..(%d bytes)..%s", ih[:64], len(input), ih[len(ih)-64:])
@@ -403,4 +417,133 @@ func tail(s string, n int) string {
 		return s[len(s)-n:]
 	}
 	return s
+}
+
+// failingDest: a fake nsqd that answers OK to the first k PUBs and refuses the next (E_* frame or by closing).
+func failingDest(ln net.Listener, k int, byClose bool, got *[][]byte, mu *sync.Mutex) {
+	for {
+		c, err := ln.Accept()
+		if err != nil {
+			return
+		}
+		go func(c net.Conn) {
+			defer c.Close()
+			r := bufio.NewReaderSize(c, 1<<16)
+			magic := make([]byte, 4)
+			if _, err := io.ReadFull(r, magic); err != nil {
+				return
+			}
+			for {
+				line, err := r.ReadBytes('\n')
+				if err != nil {
+					return
+				}
+				f := strings.Fields(string(line))
+				if len(f) == 0 {
+					continue
+				}
+				switch f[0] {
+				case "IDENTIFY", "PUB":
+					var sz [4]byte
+					if _, err := io.ReadFull(r, sz[:]); err != nil {
+						return
+					}
+					n := int(sz[0])<<24 | int(sz[1])<<16 | int(sz[2])<<8 | int(sz[3])
+					body := make([]byte, n)
+					if _, err := io.ReadFull(r, body); err != nil {
+						return
+					}
+					if f[0] == "IDENTIFY" {
+						c.Write(frame(0, []byte("OK")))
+						continue
+					}
+					mu.Lock()
+					accept := len(*got) < k
+					if accept {
+						*got = append(*got, body)
+					}
+					mu.Unlock()
+					if accept {
+						c.Write(frame(0, []byte("OK")))
+					} else if byClose {
+						return
+					} else {
+						c.Write(frame(1, []byte("E_PUB_FAILED PUB failed fake destination says no")))
+					}
+				}
+			}
+		}(c)
+	}
+}
+
+func runToNsqFailing(bin string, idx int, c *tnCase, name string, input []byte, expected [][]byte, rep *tnReport, mu *sync.Mutex, distinct map[string]bool) {
+	k := *c.FailAfter
+	ln, err := net.Listen("tcp", "127.0.0.1:0")
+	if err != nil {
+		mu.Lock()
+		rep.Inconclusive = append(rep.Inconclusive, err.Error())
+		mu.Unlock()
+		return
+	}
+	defer ln.Close()
+	var got [][]byte
+	var gmu sync.Mutex
+	go failingDest(ln, k, idx%2 == 0, &got, &gmu)
+	argv := []string{"-topic", fmt.Sprintf("c20f%d", idx), "-nsqd-tcp-address", ln.Addr().String()}
+	if c.D != '\n' {
+		argv = append(argv, "-delimiter", string([]byte{byte(c.D)}))
+	}
+	ctx, cancel := context.WithTimeout(context.Background(), 120*time.Second)
+	defer cancel()
+	cmd := exec.CommandContext(ctx, bin, argv...)
+	cmd.Stdin = bytes.NewReader(input)
+	var stderr bytes.Buffer
+	cmd.Stderr = &stderr
+	runErr := cmd.Run()
+	if ctx.Err() != nil {
+		mu.Lock()
+		rep.Inconclusive = append(rep.Inconclusive, fmt.Sprintf("to_nsq did not finish %s (failing destination) within 120 s", name))
+		mu.Unlock()
+		return
+	}
+	gmu.Lock()
+	g := append([][]byte{}, got...)
+	gmu.Unlock()
+	want := expected
+	if len(want) > k {
+		want = want[:k]
+	}
+	mu.Lock()
+	defer mu.Unlock()
+	rep.Runs++
+	rep.FailingDest++
+	rep.RecordsSeen += len(want)
+	distinct[fmt.Sprintf("%s|%d|fail%d", c.In, c.D, k)] = true
+	if sameRecs(g, want) {
+		// shape: a refused publish is fatal (log.Fatal), otherwise a clean exit
+		if (len(expected) > k) != (runErr != nil) {
+			rep.ShapeNotes = append(rep.ShapeNotes, fmt.Sprintf("%s fail_after=%d: exit status %v", name, k, runErr))
+		}
+		return
+	}
+	class := "accepted-before-refusal-is-not-a-prefix-of-records"
+	if len(input) > 0 && input[len(input)-1] != byte(c.D) && len(expected) <= k && len(expected) > 0 {
+		// everything was accepted, so the final-record defect shows here as well
+		stripped := append([][]byte{}, expected...)
+		last := stripped[len(stripped)-1]
+		if len(last) == 1 {
+			stripped = stripped[:len(stripped)-1]
+		} else {
+			stripped[len(stripped)-1] = last[:len(last)-1]
+		}
+		if sameRecs(g, stripped) {
+			class = "unterminated-final-record-loses-last-byte"
+		}
+	}
+	rep.MismatchN++
+	rep.ByClass[class]++
+	if rep.ByClass[class] <= 12 {
+		rep.Mismatches = append(rep.Mismatches, tnMismatch{Case: fmt.Sprintf("%s fail_after=%d", name, k), InputHex: hex.EncodeToString(input), Delim: c.D, NDest: 1,
+			Expected: hexes(want), Got: hexes(g), Class: class, Symbolic: c.In})
+	}
 }
